@@ -200,7 +200,7 @@ fn ovk_o(o: &Option<[u8; 32]>) -> Option<orchard::keys::OutgoingViewingKey> {
 
 /// Creates the builder, proposes the version and adds the content; every step is compared with the
 /// plan. Panics of the builder propagate to the caller's `catch`.
-fn drive(c: &Case, p: &Plan, w: &World) -> Result<Builder<LocalNetwork, ()>, Fail> {
+fn drive(c: &Case, p: &Plan, w: &World) -> Result<Option<Builder<LocalNetwork, ()>>, Fail> {
     let k = keys();
     let cfg = BuildConfig::Standard {
         sapling_anchor: match c.sap_anchor {
@@ -223,9 +223,15 @@ fn drive(c: &Case, p: &Plan, w: &World) -> Result<Builder<LocalNetwork, ()>, Fai
     };
     let mut b = Builder::new(w.net, BlockHeight::from_u32(c.height), cfg);
 
+    let replan = std::cell::Cell::new(false);
     let propose = |b: &mut Builder<LocalNetwork, ()>, v: Ver| -> Result<(), Fail> {
         let want = p.propose_ok.expect("plan has a proposal");
-        match b.propose_version::<Infallible>(v.real()) {
+        let got = b.propose_version::<Infallible>(v.real());
+        if p.propose_undecided && want && matches!(got, Err(BErr::TargetIncompatible(..))) {
+            replan.set(true);
+            return Ok(());
+        }
+        match got {
             Ok(()) => vensure!(want, "propose-version-accepted-invalid", "propose_version({v:?}) accepted under {:?} (late={:?})", p.br, c.propose),
             Err(BErr::TargetIncompatible(..)) => {
                 vensure!(!want, "propose-version-rejected-valid", "propose_version({v:?}) rejected under {:?} although valid (late={:?})", p.br, c.propose)
@@ -236,6 +242,9 @@ fn drive(c: &Case, p: &Plan, w: &World) -> Result<Builder<LocalNetwork, ()>, Fai
     };
     if let Some((v, false)) = c.propose {
         propose(&mut b, v)?;
+        if replan.get() {
+            return Ok(None);
+        }
     }
 
     for (i, x) in c.t_in.iter().enumerate() {
@@ -299,8 +308,11 @@ fn drive(c: &Case, p: &Plan, w: &World) -> Result<Builder<LocalNetwork, ()>, Fai
 
     if let Some((v, true)) = c.propose {
         propose(&mut b, v)?;
+        if replan.get() {
+            return Ok(None);
+        }
     }
-    Ok(b)
+    Ok(Some(b))
 }
 
 fn finish<FR: FeeRule>(c: &Case, p: &Plan, b: Builder<LocalNetwork, ()>, rule: &FR) -> Outcome
@@ -356,11 +368,13 @@ where
     }
 }
 
-pub fn run(c: &Case, p: &Plan, w: &World) -> Result<Outcome, Fail> {
+/// `None`: the builder rejected a proposal that the plan tolerantly assumed accepted; re-plan.
+pub fn run(c: &Case, p: &Plan, w: &World) -> Result<Option<Outcome>, Fail> {
     let b = match catch(|| drive(c, p, w)) {
         Ok(r) => r?,
         Err(pm) => vfail!(format!("builder-panic:{}", panic_site(&pm)), "panic while configuring the builder: {pm}"),
     };
+    let Some(b) = b else { return Ok(None) };
     let out = catch(|| match &c.rule {
         Rule::Standard => finish(c, p, b, &zip317::FeeRule::standard()),
         Rule::NonStd { marginal, grace, std_in, std_out } => {
@@ -369,8 +383,8 @@ pub fn run(c: &Case, p: &Plan, w: &World) -> Result<Outcome, Fail> {
         }
         Rule::Fixed(f) => finish(c, p, b, &fixed::FeeRule::non_standard(zat(*f))),
     });
-    Ok(match out {
+    Ok(Some(match out {
         Ok(o) => o,
         Err(pm) => Outcome::Panic(pm),
-    })
+    }))
 }
